@@ -462,6 +462,14 @@ def lc_check(ax, case, rec):
         right = float(X[:, axis].max())
         kw = dict(move=move, axis=axis, clamped=case["clamped"], sym=sym if not isinstance(sym, list) else tuple(sym))
         if case["explicit"]:
+            planes = np.unique(np.round(X[:, axis], 12))
+            if planes[0] < 0.0 < planes[-1]:
+                # an explicitly given end face at the coordinate 0.0 inside the body (with or without grid points on it)
+                left = 0.0
+                rec.label("explicit-left-plane=0.0")
+            elif len(planes) >= 3 and case["move3"] > 0:
+                left = float(planes[1])  # an interior grid plane
+                rec.label("explicit-left-plane=interior")
             kw.update(left=left, right=right)
         bounds, d = fem.dof.uniaxial(fc, **kw)
         dof0, dof1, ext0 = d["dof0"], d["dof1"], d["ext0"]
